@@ -165,8 +165,10 @@ fn apply_delta(py: Python, py_src_buf: Py<PyAny>, py_delta: Py<PyAny>) -> PyResu
 
     let dest_size = get_delta_header_size(delta.as_ref(), &mut index, delta_len)
         .map_err(ApplyDeltaError::new_err)?;
-    let mut out = vec![0; dest_size];
-    let mut outindex = 0;
+    // Grow the output as operations are applied instead of allocating the
+    // declared size up front: the size header is untrusted input, and a few
+    // bytes can declare terabytes (the allocation failure aborts the process).
+    let mut out: Vec<u8> = Vec::new();
 
     while index < delta_len {
         let cmd = delta[index];
@@ -203,33 +205,24 @@ fn apply_delta(py: Python, py_src_buf: Py<PyAny>, py_delta: Py<PyAny>) -> PyResu
             }
 
             // Check for overflow and bounds
-            if cp_size > src_size
-                || cp_off > src_size
-                || cp_off > src_size - cp_size
-                || cp_size > dest_size
-                || outindex > dest_size - cp_size
-            {
-                break;
+            if cp_size > src_size || cp_off > src_size - cp_size {
+                return Err(ApplyDeltaError::new_err("copy out of source bounds"));
+            }
+            if cp_size > dest_size - out.len() {
+                return Err(ApplyDeltaError::new_err("Not enough space to copy"));
             }
 
-            out[outindex..outindex + cp_size].copy_from_slice(&src_buf[cp_off..cp_off + cp_size]);
-            outindex += cp_size;
+            out.extend_from_slice(&src_buf[cp_off..cp_off + cp_size]);
         } else if cmd != 0 {
-            if (cmd as usize) > dest_size {
-                break;
-            }
-
             // Raise ApplyDeltaError if there are more bytes to copy than space
-            if outindex + cmd as usize > dest_size {
+            if cmd as usize > dest_size - out.len() {
                 return Err(ApplyDeltaError::new_err("Not enough space to copy"));
             }
             if index + cmd as usize > delta_len {
                 return Err(ApplyDeltaError::new_err("delta not empty"));
             }
 
-            out[outindex..outindex + cmd as usize]
-                .copy_from_slice(&delta[index..index + cmd as usize]);
-            outindex += cmd as usize;
+            out.extend_from_slice(&delta[index..index + cmd as usize]);
             index += cmd as usize;
         } else {
             return Err(ApplyDeltaError::new_err("Invalid opcode 0"));
@@ -240,7 +233,7 @@ fn apply_delta(py: Python, py_src_buf: Py<PyAny>, py_delta: Py<PyAny>) -> PyResu
         return Err(ApplyDeltaError::new_err("delta not empty"));
     }
 
-    if outindex != dest_size {
+    if out.len() != dest_size {
         return Err(ApplyDeltaError::new_err("dest size incorrect"));
     }
 
